@@ -5,7 +5,7 @@ Engine:  depth-first exploration of decision prefixes by re-execution; every for
          solver (both sides checked, only feasible sides entered).
 Nothing here knows about POX.
 """
-import sys, time, signal, z3
+import sys, os, time, signal, z3
 
 W = 80                       # bit width of SymInt terms (set_width() before creating values)
 LIM = 1 << (W - 2)
@@ -101,7 +101,7 @@ class Engine:
   cur = None
 
   def __init__(self, solver_timeout_ms=30000, max_decisions=4000, path_seconds=60, conc_cap=300):
-    self.solver = z3.SolverFor('QF_BV') if MODE == 'bv' else z3.Solver()
+    self.solver = (z3.SolverFor('QF_BV') if os.environ.get('SX_SOLVER','default')=='QF_BV' else z3.Solver()) if MODE == 'bv' else z3.Solver()
     self.solver.set('timeout', solver_timeout_ms)
     self.solver_calls = 0
     self.solver_time = 0.0
